@@ -64,6 +64,7 @@ def currentCfg : Cfg :=
     seriesLimitFirst := seriesLimitFirstOf C09.indexGenSeriesCalls
     schemaMarkWritten := C09.schemaFlushCalls.contains "λ:value.MarkPersistedPrefix" &&
       !C09.schemaFlushCalls.contains "λ:value.MarkPersisted"
+    memdbExclusive := C09.memdbGetOrCreateTSICalls.contains "lock.Lock" && !C09.memdbGetOrCreateTSICalls.contains "lock.RLock"
     kvMemFirst := kvMemFirstOf C09.kvGetOrCreateCalls
     kvCacheAddGuarded := C09.kvGetOrCreateCalls.contains "s.addBucketCache" && !C09.kvGetOrCreateCalls.contains "bucketCache.Add" &&
       C09.kvAddBucketCacheCalls = ["lock.RLock", "defer:lock.RUnlock", "bucketCache.Add"]
